@@ -174,6 +174,51 @@ func (c cfg) geom(r *vproto.Rng, k int) geom.Geom {
 	}
 }
 
+// wide builds a geometry of type k in which exactly one nesting level has w members (all others 1..2),
+// so that limits or truncations at any level show up without blowing up the total size
+func wide(r *vproto.Rng, k, level, w int) geom.Geom {
+	cnt := func(l int) int {
+		if l == level {
+			return w
+		}
+		return r.Range(1, 2)
+	}
+	pts := func(l int) []geom.Point {
+		p := make([]geom.Point, cnt(l))
+		for i := range p {
+			p[i] = geom.Point{X: coord(r, false), Y: float64(i)}
+		}
+		return p
+	}
+	ptss := func(l int) []geom.Path {
+		p := make([]geom.Path, cnt(l))
+		for i := range p {
+			p[i] = pts(l + 1)
+		}
+		return p
+	}
+	switch k {
+	case 1:
+		return geom.MultiPoint(pts(0))
+	case 2:
+		return geom.LineString(pts(0))
+	case 3:
+		m := make(geom.MultiLineString, cnt(0))
+		for i := range m {
+			m[i] = pts(1)
+		}
+		return m
+	case 4:
+		return geom.Polygon(ptss(0))
+	default:
+		m := make(geom.MultiPolygon, cnt(0))
+		for i := range m {
+			m[i] = ptss(1)
+		}
+		return m
+	}
+}
+
 // ---- generic JSON documents written by the generator (for dec / fromt lines)
 
 type node struct {
@@ -561,6 +606,19 @@ func gen(seed uint64, tier string) {
 			}
 			doc := document(r, ty, c)
 			emitDoc(ty, c, doc, r.Bool())
+		}
+	}
+	// wide geometries: one nesting level with many members
+	nw := 4
+	if tier == "thorough" {
+		nw = 40
+	}
+	depth := map[int]int{1: 1, 2: 1, 3: 2, 4: 2, 5: 3}
+	for i := 0; i < nw; i++ {
+		for k := 1; k <= 5; k++ {
+			for level := 0; level < depth[k]; level++ {
+				emit(wide(r, k, level, []int{65, 129, 257, 1025}[r.Intn(4)]))
+			}
 		}
 	}
 	// documents that are not objects
